@@ -40,8 +40,24 @@ def judge(case):
             viol.append({"kind": f"{op}:shape", "detail": f"library shape {a.shape}, reference {b.shape}"})
         elif not np.allclose(a, b, rtol=RT, atol=AT, equal_nan=True):
             viol.append({"kind": f"{op}:value", "detail": f"max abs diff {np.nanmax(np.abs(a.astype(np.float64) - b))}"})
+    # the same operands in other memory layouts (Fortran order, strided view): values are defined on the logical array
+    if lib[0] == "ok" and ref[0] == "ok" and not viol and any(a.ndim >= 2 and a.size > 1 for a in arrays):
+        for lname, conv in (("fortran-order", lambda a: np.asfortranarray(a)), ("strided-view", _strided)):
+            alt = [conv(a) for a in snap]
+            r2 = _outcome(lambda: np.asarray(cat.run_lib(case, alt, copy=False)[0].data))
+            if r2[0] != "ok":
+                viol.append({"kind": f"{op}:layout-dependent", "detail": f"operands given in {lname} layout: library raised {r2[1]}"})
+            elif tuple(r2[1].shape) != tuple(ref[1].shape) or not np.allclose(r2[1], ref[1], rtol=RT, atol=AT, equal_nan=True):
+                viol.append({"kind": f"{op}:layout-dependent", "detail": f"operands given in {lname} layout: result differs from the reference (shape {r2[1].shape})"})
     return {"nontrivial": lib[0] == "ok" and lib[1].size >= 1 and any(int(np.prod(s, dtype=int)) > 1 for s in case["shapes"]),
             "outcome": tag, "violations": viol}
+
+def _strided(a):
+    """same logical values, stored with stride 2 along the last axis (non-contiguous view)"""
+    if a.ndim == 0: return a
+    big = np.zeros(a.shape[:-1] + (2 * a.shape[-1],), dtype=a.dtype)
+    big[..., ::2] = a
+    return big[..., ::2]
 
 # ----------------------------------------------------------------------------- constructors
 def ctor_cases():
